@@ -406,7 +406,7 @@ def rule_sentinel(ctx):
     spec_rows(ctx, R, TLSCONN + "_handshakeServerAsyncHelper", [
         dict(what="server marks ServerHello.random with the downgrade sentinel exactly when it negotiates below its maximum",
              dom={"version": [(3, 0), (3, 2), (3, 3)], "settings.maxVersion": [(3, 1), (3, 2), (3, 3), (3, 4)],
-                  "result == None": [False]},
+                  "result is None": [False]},
              when=lambda e: e["version"] <= e["settings.maxVersion"],
              abort=lambda e: False,
              effects={"TLS 1.2 sentinel": (marks("TLS_1_2_DOWNGRADE_SENTINEL"),
@@ -596,6 +596,33 @@ def rule_binder(ctx):
               hb.qname, "binder computed over transcript + truncated ClientHello",
               "verify_binder must hash a copy of the transcript extended with the truncated ClientHello",
               hb.loc())
+    # the transcript the server checks binders against is the one that precedes the ClientHello being
+    # checked: every path to a _getMsg(client_hello) takes the copy after the last message that entered the
+    # transcript (after a HelloRetryRequest: after the HRR was sent, RFC 8446 4.2.11.2)
+    sg = ctx.index.func(TLSCONN + "_serverGetClientHello")
+    gq = ctx.an.cfg(sg)
+    reads = getmsg_nodes(gq, hs_type="client_hello")
+    copies = [n for n in gq.nodes if n.kind == "stmt" and isinstance(n.ast, ast.Assign)
+              and any(attr_chain(t) == "self._pre_client_hello_handshake_hash" for t in n.ast.targets)]
+    if len(reads) < 2 or not copies:
+        raise AnalysisError("C04.BINDER: ClientHello reads / transcript copy for binders not found in _serverGetClientHello")
+    writers = [n for n in gq.nodes if (n.kind in ("consume", "noreturn") and call_name(n.call) in ("_sendMsg", "_sendMsgs", "_queue_message"))
+               or (n.kind == "stmt" and "self._handshake_hash.update(" in norm(n.ast))
+               or (n.kind == "stmt" and isinstance(n.ast, ast.Assign) and any(attr_chain(t) == "self._handshake_hash" for t in n.ast.targets))]
+    stale = None
+    for w in writers:
+        # from a statement that changes the transcript, a ClientHello read must not be reachable
+        # without passing a fresh copy
+        seen = gq.reach(gq.normal_succ(w), blocked=copies)
+        hit = [r for r in reads if r.id in seen]
+        if hit:
+            stale = (w, hit[0])
+            break
+    ctx.check(R, stale is None, sg.qname, "binder transcript copied after the last transcript change",
+              "a ClientHello is read (line %s) after the transcript changed (line %s) with no fresh copy into "
+              "_pre_client_hello_handshake_hash in between: its PSK binders are checked against a transcript that "
+              "lacks the HelloRetryRequest" % ((stale[1].line, stale[0].line) if stale else ("", "")), sg.loc(),
+              what="_serverGetClientHello copies the transcript for binders after every change before reading a ClientHello")
     ub = ctx.index.func("handshakehelpers:HandshakeHelpers.update_binders")
     usrc = [norm(n) for n in own_nodes(ub.node)]
     ctx.check(R, "hh = handshake_hashes.copy()" in usrc and "hh.update(client_hello.psk_truncate())" in usrc,
@@ -647,6 +674,8 @@ def rule_pure_kdf(ctx):
 
 RULES = [
     ("C04.PURE-KDF", "quick", rule_pure_kdf),
+    # a resumed connection keeps the protection negotiated by the full handshake (no silent EtM downgrade)
+    ("C04.ETM-SOURCE", "quick", borrowed("c13", "rule_pending_source", "C13.ETM-SOURCE", "C04.ETM-SOURCE")),
     ("C04.FIN", "quick", rule_fin),
     ("C04.TRANSCRIPT", "quick", rule_transcript),
     ("C04.SCHEDULE", "quick", rule_schedule),
